@@ -217,7 +217,8 @@ type RecvCase struct {
 	State int     `json:"state"` // 0 fresh, 1 after sending query, 2 awaiting DH key, 3 awaiting reveal sig, 4 awaiting sig, 5 encrypted, 6 encrypted+rotations, 7 finished, 8 mid fragment stream, 9 SMP pending
 	NoKey bool    `json:"nokey,omitempty"`
 	Kind  int     `json:"kind"` // how the input is made
-	A, B  int     `json:"a,omitempty"`
+	A     int     `json:"a,omitempty"`
+	B     int     `json:"b,omitempty"`
 	Raw   []byte  `json:"raw,omitempty"`
 }
 
@@ -474,7 +475,8 @@ func TestProp_C13_Receive(t *testing.T) {
 type AuthCase struct {
 	Cfg  SessCfg `json:"cfg"`
 	Kind int     `json:"kind"`
-	A, B int     `json:"a,omitempty"`
+	A    int     `json:"a,omitempty"`
+	B    int     `json:"b,omitempty"`
 }
 
 func runAuthPayload(c *AuthCase) *sim.Outcome {
